@@ -18,7 +18,7 @@ EXPLANATION = (
 
 def run(tier):
     cr = CheckRun("C01", tier, "other", EXPLANATION, "DESIGN §4 C01")
-    cr.contracts(["contracts.c01", "contracts.c01b", "contracts.cdispatch", "contracts.c13", "contracts.c14b", "contracts.c14d", "contracts.c11", "contracts.c07", "contracts.c07b", "contracts.c10", "contracts.c20b", "contracts.c02"])
+    cr.contracts(["contracts.c01", "contracts.c01b", "contracts.c01c", "contracts.cdispatch", "contracts.c13", "contracts.c14b", "contracts.c14d", "contracts.c11", "contracts.c07", "contracts.c07b", "contracts.c10", "contracts.c20b", "contracts.c02"])
     progs = gen.c01_scope(tier)
     for optimize in (True, False):
         cr.bounded_check(
